@@ -65,7 +65,7 @@ var vhFiles = []repository.Hash{"1111111111111111111111111111111111111111", "222
 
 // vhPickFiles: no file, or the blob that belongs to operation number j.
 func vhPickFiles(j int) ([]repository.Hash, repository.Hash) {
-	if rt.Choose(2) == 0 {
+	if rt.Param("FILES", 1) == 0 || rt.Choose(2) == 0 {
 		return nil, ""
 	}
 	f := vhFiles[j%len(vhFiles)]
@@ -104,7 +104,11 @@ func VH_C10_sequence() {
 	for j := 1; j <= n; j++ {
 		a := rt.Choose(2)
 		aid := vhAuthors[a].id
-		switch rt.Choose(7) {
+		kindOfOp := rt.Choose(7)
+		if rt.Param("NOLABELS", 0) == 1 && kindOfOp == 4 {
+			rt.Assume(false) // label changes have their own harness (H_C10_labels)
+		}
+		switch kindOfOp {
 		case 0:
 			msg := fmt.Sprintf("m%d", j)
 			fs, f := vhPickFiles(j)
